@@ -109,7 +109,7 @@ func (c *Ctx) globalFacts(g *ssa.Global, ref string) {
 	if g.Pkg == nil || w.mutableGlobals()[g.Pkg.Pkg.Path()+"."+g.Name()] {
 		return
 	}
-	if g.Pkg.Pkg.Path() == "encoding/base64" && strings.HasSuffix(g.Name(), "Encoding") {
+	if (g.Pkg.Pkg.Path() == "encoding/base64" || g.Pkg.Pkg.Path() == "encoding/base32") && strings.HasSuffix(g.Name(), "Encoding") {
 		// the four standard encodings are non-nil package-level pointers
 		t0 := g.Type().(*types.Pointer).Elem()
 		h, srt := c.cellHeap(t0)
